@@ -78,6 +78,10 @@ def check(index, ctx):
                                 "the assignment fails or silently changes precision (and the result depends on which code path produced the tensor)", e["loc"], nontrivial=False)
                 if e["value_is_none"]:
                     ctx.violated("R3", f"{_layout.key(e)} resets .grad", ".grad is set to None", e["loc"])
+                if e.get("maybe_copy"):
+                    ctx.violated("R3", f"{_layout.key(e)} accumulates into a possible copy of .grad",
+                                 f"`{e['text'][:80]}` adds in place to the result of flatten()/reshape()/contiguous() of the existing .grad: that is the field's own storage only when it is contiguous — "
+                                 "for a non-contiguous .grad (e.g. one created as a transposed view) the sum lands in a temporary copy and the update of that parameter is lost", e["loc"])
                 if not e["aug"]:
                     ctx.require(bool(e["fresh"]), "R4", _layout.key(e), "value is freshly allocated",
                                 f"`{e['text']}` stores a tensor that is not freshly allocated (origin {e['value_origin']}): the new .grad shares memory with the aggregated vector / "
